@@ -407,6 +407,18 @@ pub fn witnesses() -> Vec<(&'static str, Tree)> {
             c(None, vec![(1.0e308, p(0, "x", vec![("a", t(1.0)), ("b", t(0.0))])), (1.5e308, p(0, "x", vec![("a", t(0.0)), ("b", t(2.0))])), (1.5e308, t(-1.0))]),
         ),
         (
+            "one chance infoset given as 2:3 here and 6:9 there (valid: the same distribution)",
+            c(None, vec![(1.0, c(Some("k"), vec![(2.0, t(1.0)), (3.0, t(0.0))])), (1.0, c(Some("k"), vec![(6.0, t(0.0)), (9.0, t(2.0))]))]),
+        ),
+        (
+            "one chance infoset given as 1:2 here and 11:22 there (valid)",
+            c(None, vec![(1.0, c(Some("k"), vec![(1.0, t(1.0)), (2.0, t(0.0))])), (1.0, c(Some("k"), vec![(11.0, t(0.0)), (22.0, t(2.0))]))]),
+        ),
+        (
+            "one chance infoset given as 3:1:1 here and 21:7:7 there (valid)",
+            c(None, vec![(1.0, c(Some("k"), vec![(3.0, t(1.0)), (1.0, t(0.0)), (1.0, t(-1.0))])), (1.0, c(Some("k"), vec![(21.0, t(0.0)), (7.0, t(2.0)), (7.0, t(1.0))]))]),
+        ),
+        (
             "absent-mindedness",
             p(1, "x", vec![("a", p(1, "x", vec![("a", t(0.0)), ("b", t(1.0))])), ("b", t(2.0))]),
         ),
